@@ -92,6 +92,9 @@ impl<H: Hal, const SIZE: usize> VirtQueue<H, SIZE> {
         #[allow(clippy::let_unit_value)]
         let _ = Self::SIZE_OK;
 
+        #[cfg(virtio_drivers_verif)]
+        crate::verif::queue_new(idx, indirect, event_idx, access_platform);
+
         if transport.queue_used(idx) {
             return Err(Error::AlreadyUsed);
         }
